@@ -9,8 +9,9 @@ PROOF_FILE = "C11"
 LEVEL = "proof"
 RULE = ("requirement strings per system (Default, NPM, Cargo, Go, NuGet), grammar-directed with partial versions, wildcards, "
         "prerelease bounds, every operator (so that ∞ components, the minimum 0.0.0-0, Go's v prefix and NuGet lower-casing "
-        "occur in the printed sets), 5% mutated; ~20 probe versions per requirement (bounds, neighbours in each component, "
-        "prerelease neighbours, random). Go prints Set.String, parses it with ParseSetConstraint, prints again, and reports "
+        "occur in the printed sets), 5% mutated; ~20 probe versions per requirement (every version literal of the text byte for byte as written, "
+        "bounds, neighbours in each component, prerelease neighbours, random); 8% of the Default/NPM/Cargo requirements are "
+        "and-lists that collapse to a single version (>a <=inc(a), >=a <=a, >a inc(a), either order). Go prints Set.String, parses it with ParseSetConstraint, prints again, and reports "
         "MatchVersionPrerelease of every probe before and after; the extracted model does the same from the same parse tables. "
         "A case is non-trivial when the requirement parses and its set has at least one non-empty span")
 TRUSTED = [
